@@ -43,14 +43,22 @@ def newest_mtime(root, exts):
     return m
 
 
+TRANSLATOR_ERRORS = []   # (translator, properties whose theorems use its output, message) of this run
+
+
 def build_coq():
     """full .vo build (no-op when current). Returns (ok, log)."""
     if not os.path.exists(os.path.join(COQ, 'Makefile')):
         sh('coq_makefile -f _CoqProject -o Makefile', cwd=COQ)
     # translator: the documentation table of the repository under check -> Spec/DocTable.v (C08)
-    sh('python3 %s %s %s' % (os.path.join(VERIF, 'bin', 'gen_doctable.py'), REPO, os.path.join(COQ, 'Spec', 'DocTable.v')), check=False)
+    del TRANSLATOR_ERRORS[:]
+    t = sh('python3 %s %s %s' % (os.path.join(VERIF, 'bin', 'gen_doctable.py'), REPO, os.path.join(COQ, 'Spec', 'DocTable.v')), check=False)
+    if t.returncode != 0:
+        TRANSLATOR_ERRORS.append(('gen_doctable.py', ('C03', 'C04', 'C05', 'C08', 'C09'), t.stdout[-400:]))
     # translator: the renderers' name tables (render.go, flow.pb.go) -> Spec/RenderTables.v (C13)
-    sh('python3 %s %s %s' % (os.path.join(VERIF, 'bin', 'gen_rendertables.py'), REPO, os.path.join(COQ, 'Spec', 'RenderTables.v')), check=False)
+    t = sh('python3 %s %s %s' % (os.path.join(VERIF, 'bin', 'gen_rendertables.py'), REPO, os.path.join(COQ, 'Spec', 'RenderTables.v')), check=False)
+    if t.returncode != 0:
+        TRANSLATOR_ERRORS.append(('gen_rendertables.py', ('C13', 'C14'), t.stdout[-400:]))
     p = sh('timeout 3000 make -j%d' % NPROC, cwd=COQ, timeout=3100, check=False)
     return p.returncode == 0, p.stdout
 
@@ -628,6 +636,11 @@ def std_prepare(chk, race=False):
     if not ok:
         chk.violations.append(dict(kind='proof', concrete=False, what='Coq development does not build',
                                    log=log[-3000:]))
+    for name, props, msg in TRANSLATOR_ERRORS:
+        if chk.pid in props:
+            # the generated table could not be refreshed from the source: the theorems would be about a stale copy
+            chk.violations.append(dict(kind='translator', concrete=False,
+                                       what='translator %s could not read its source in the repository: the generated Coq table is no longer tied to the code (%s)' % (name, msg.strip()[-200:])))
     chk.proof = check_property_file(chk.pid)
     if not chk.proof['ok']:
         chk.violations.append(dict(kind='proof', concrete=False,
